@@ -143,6 +143,9 @@ class CsrfProtection:
 
             raise CsrfFailureException("csrf cookie not valid")
         logging.debug(f'check_csrf csrf_key: "{csrf_key}"')
+        if not isinstance(csrf_token, str):
+            # e.g. a JSON null
+            raise CsrfFailureException("csrf_token is not valid")
         token = str(urllib.parse.unquote(csrf_token))
         try:
             origin = flask.request.headers['Origin']
